@@ -104,15 +104,15 @@ pub fn budget(prop: &str, tier: &str) -> (u64, usize) {
     let quick: u64 = match prop {
         // the whole grid: every point sequentially and under C16_SCHEDULES_PER_POINT schedules
         "C16" => crate::gen::c16_grid_size() * (crate::gen::C16_SCHEDULES_PER_POINT + 1),
-        "C04" => 60_000,
-        "C05" => 50_000,
-        _ => 70_000,
+        "C04" => 90_000,
+        "C05" => 80_000,
+        _ => 100_000,
     };
     let env_runs = std::env::var("VERIF_RUNS").ok().and_then(|v| v.parse().ok());
     let runs = match (env_runs, tier) {
         (Some(r), _) => r,
         (None, "thorough") if prop == "C16" => quick * 8,
-        (None, "thorough") => quick * 20,
+        (None, "thorough") => quick * 15,
         _ => quick,
     };
     let workers = std::env::var("VERIF_WORKERS")
